@@ -61,7 +61,7 @@ def mon(w):
                        "the follower selected link %d but the leader's end is in state %r" % (l.idx, pstate(other) if hasattr(other, "_manager") else type(other).__name__))
     # the connection the leader selected is the generation's shared connection: unless the network broke it, the follower must
     # be able to take everything the leader sends on it (a record ahead of the leader's KCM raises in the follower and drops it)
-    for (lidx, sd, broken, tname, msg) in w.__dict__.get("rx_raised", []):
+    for (lidx, sd, broken, tname, msg, _in_use) in w.__dict__.get("rx_raised", []):
         l = w.net.links[lidx]
         far = l.ends[1 - sd].protocol
         far = getattr(far, "_wrappedProtocol", far)
